@@ -20,7 +20,7 @@ use std::process::{Command, Stdio};
 use std::sync::atomic::{AtomicUsize, Ordering};
 use std::sync::{Arc, Mutex};
 
-pub const FAMILIES: [&str; 72] = [
+pub const FAMILIES: [&str; 73] = [
     "block-literal-lines",
     "block-folded-long-lines",
     "block-wide-indent",
@@ -76,6 +76,7 @@ pub const FAMILIES: [&str; 72] = [
     "deep-nest-many-map-entries",
     "big-anchor-document-then-many-documents",
     "big-tag-document-then-many-documents",
+    "distinct-tag-handle-per-document",
     "wide-flowseq-then-deep-nest",
     "wide-blockseq-then-deep-nest",
     "wide-flowmap-then-deep-nest",
@@ -96,7 +97,7 @@ pub const FAMILIES: [&str; 72] = [
     "units-literal-blank-indented",
     "units-flow-dq-escaped-break-blank-line",
 ];
-pub const APIS: [&str; 5] = ["iter-str", "iter-buffered", "load-yaml", "load-lazy", "load-marked"];
+pub const APIS: [&str; 6] = ["iter-str", "iter-buffered", "load-yaml", "load-lazy", "iter-keep-tags", "load-marked"];
 /// The level-scaled scenarios (known findings of the eager loaders) leave the lazy route out: it is the same loader.
 pub const SPECIAL_APIS: [&str; 4] = ["iter-str", "iter-buffered", "load-yaml", "load-marked"];
 pub const RATIO_LIMIT: f64 = 6.0;
@@ -474,6 +475,12 @@ pub fn render(family: &str, bytes: usize) -> String {
                 s.push('\n');
             }
         }
+        "distinct-tag-handle-per-document" => {
+            while s.len() < bytes {
+                s.push_str(&format!("%TAG !h{k}! tag:e.com,{k}:\n--- !h{k}!t a\n...\n"));
+                k += 1;
+            }
+        }
         "many-tag-handles-one-document" => {
             // K handles declared, K nodes using one (the pinned parser keeps only the handle
             // declared last — a C16 matter, noted in DESIGN §12 — so all nodes use that one)
@@ -620,6 +627,14 @@ fn api_run(text: &str, api: &str) -> Result<usize, String> {
             Ok(n)
         }
         "load-yaml" => Yaml::load_from_str(text).map(|d| d.len()).map_err(|e| e.to_string()),
+        "iter-keep-tags" => {
+            let mut n = 0;
+            for ev in Parser::new_from_str(text).keep_tags(true) {
+                ev.map_err(|e| e.to_string())?;
+                n += 1;
+            }
+            Ok(n)
+        }
         "load-lazy" => {
             // deferred resolution: load without resolving scalars, then resolve the whole tree
             let mut p = Parser::new_from_str(text);
@@ -729,12 +744,16 @@ pub fn run(cfg: &Config) -> (i32, J) {
     }
     let mut jobs = Vec::new();
     // quick: the string iterator, the buffered iterator and one loader; thorough: also the marked loader
-    let apis: &[&str] = if cfg.tier == "thorough" { &APIS } else { &APIS[..4] };
+    let apis: &[&str] = if cfg.tier == "thorough" { &APIS } else { &APIS[..5] };
     for n in sizes(&cfg.tier) {
         for f in FAMILIES {
             for a in apis {
                 // the scalar-unit families differ in the scanner only: one iterator, one loader
                 if f.starts_with("units-") && !matches!(*a, "iter-str" | "load-yaml") {
+                    continue;
+                }
+                // the parser option keep_tags(true) matters where tags are declared
+                if *a == "iter-keep-tags" && !(f.contains("tag") || f.contains("directive")) {
                     continue;
                 }
                 jobs.push((f.to_string(), a.to_string(), n));
